@@ -4,6 +4,8 @@
 //! unoptimised instruction stream of `<main>` is compared with the Lean compiler model `compileF0`
 //! (codegen tie, requests `cgen …`).  A difference end to end is a concrete failing program: it is
 //! shrunk and reported through `spec_fail`.
+#[path = "../bg9cov.rs"]
+mod bg9cov;
 #[path = "../progen.rs"]
 mod progen;
 use progen::run::*;
@@ -99,23 +101,20 @@ fn main() {
         std::panic::set_hook(Box::new(|i| eprintln!("PANIC: {i}")));
     }
 
-    // ---- known finding D21: replayed, never filtered from the main stream (the main stream is DepthSafe)
-    let mut d21 = false;
+    // ---- D21 (repaired by 0c43abd): the former witnesses are HARD regression programs
     for (name, src, expect) in d21_witnesses() {
         let r = run_program_opts(src, &RunOpts { budgets: vec![1000], max_steps: 200_000, files: vec![] });
         let ok = r.outcome == Outcome::Done && r.out == expect;
-        ctx.count(&format!("replay:{name}:{}", if ok { "as-specified" } else { "deviates" }));
+        ctx.count(&format!("regression:{name}:{}", if ok { "ok" } else { "FAILS" }));
         if !ok {
-            d21 = true;
-            ctx.notes.push(format!("{name}: implementation {} out={:?}, reference {:?}", r.outcome.tag(), r.out, expect));
+            ctx.spec_fail(format!("regression of a repaired defect ({name}): implementation {} out={:?}, the reference gives {:?}\n{src}", r.outcome.tag(), r.out, expect));
         }
-    }
-    if d21 {
-        ctx.known_findings.push("D21".into());
     }
 
     // shapes of defects being fixed: probed, switched on as soon as the implementation agrees
     let base = probe_shapes(&mut ctx);
+    // coverage-guided template families with their own oracles (harness/src/bg9cov.rs)
+    bg9cov::run_templates(&mut ctx, "C02");
 
     // ---- generated programs
     let per_tier: [usize; 4] = if ctx.quick() { [110, 90, 90, 90] } else { [2500, 2500, 2500, 2500] };
@@ -128,7 +127,8 @@ fn main() {
                 tier,
                 stmts: 4 + (k % 9),
                 budget: if big { 40 + (k as i32 % 5) * 12 } else { 40 + (k as i32 % 9) * 20 },
-                depth_safe: true,
+                // one third keeps break/continue at statement level (the historical DepthSafe shape)
+                depth_safe: k % 3 == 0,
                 big_ints: if k % 7 == 0 { 12 } else { 2 },
                 ..base.clone()
             };
